@@ -157,6 +157,28 @@ def _sizeof(prog, sname):
     return (off + maxal - 1) // maxal * maxal
 
 
+def r_safety(chk, prog, rid="C15.R2s"):
+    """the level index never leaves the level stack, on the extracted automaton (shared with C04)"""
+    chk.rule(rid, "level-stack safety on the extracted automaton: from no reachable parser configuration does any input byte move "
+                  "tok->depth outside [0, limit), for the analysed limits, in default and strict mode")
+    depths = [2] if chk.tier == "quick" else [2, 3, 4]
+    n = 0
+    for D in depths:
+        for flags, name in ((0, "default"), (1, "strict")):
+            T = tokauto.get_table(prog, flags, D)
+            deep = T.stats.get("out_of_range", [])
+            n += 1
+            sig = "limit %d, %s: level index stays inside the stack" % (D, name)
+            if deep:
+                c0, nd, bs = deep[0]
+                chk.refuted(rid, "json_tokener_parse_ex", sig, "json_tokener.c",
+                            "from the reachable parser configuration %s the byte %r moves the level index (tok->depth) to %d with limit %d: the level "
+                            "stack of %d records is indexed out of bounds" % (T.cfg_str(c0), bytes([bs[0] % 256]) if bs else b"?", nd, D, D))
+            else:
+                chk.proven(rid, "json_tokener_parse_ex", sig, "json_tokener.c", "%d reachable configurations, all with depth < %d" % (len(T.trans), D))
+    chk.floor(rid, n, 2, "level-stack safety obligations")
+
+
 def r2(chk, prog):
     rid = "C15.R2"
     chk.rule(rid, "exactness: in the product with the RFC reference, a value start is refused with the nesting-too-deep error exactly "
